@@ -471,7 +471,13 @@ def drain(ex, it, frame):
             raise Unsupported("drain of a symbolic range")
         return [VInt(z3.BitVecVal(k, s.bits), s.signed) for k in range(a, b)]
     if isinstance(it, VIter) and it.kind == "owned":
-        _need_concrete(it.seq, "drain")
+        if not isinstance(it.seq.length, int):
+            # a sequence of symbolic (bounded) length: one path per length
+            bound = ex.cfg.get("seq_bound", 3)
+            k = ex.branch([(str(j), it.seq.length == j) for j in range(bound + 1)], "drain.len")
+            for j in range(k):
+                ex.seq_item(it.seq, j)
+            return [vcopy(x) for x in it.seq.items[it.pos:k]]
         return [vcopy(x) for x in it.seq.items[it.pos:]]
     if isinstance(it, VIter) and it.kind == "ref":
         seq = deref(ex, it.src)
